@@ -110,3 +110,20 @@ Proof.
      rewrite app_nth2 by (rewrite !map_length, seq_length; lia);
      rewrite !map_length, seq_length, Nat.sub_diag; reflexivity).
 Qed.
+
+(** a root with a single neighbour is a "tip" for the code (Node.Tip()): the up-pass stops there.
+    The reconstruction then fails unless the root's own name has a state, and otherwise reports
+    0 steps: trees whose root has one child (e.g. the Newick "((a,b,c));") are outside what the
+    theorems cover ([2 <= degree t]); this is what the model (and the code) does on them *)
+Theorem acr_root_with_one_neighbour : forall t m a, is_tip t = true ->
+  match lookup (uname t) m with
+  | None => parsimony_acr t m a = Err ("Tip " ++ uname t ++ " does not exist in the tip/state mapping file")
+  | Some _ => exists r, parsimony_acr t m a = Ok r /\ acr_steps r = 0
+  end.
+Proof.
+  intros [n cm sl] m a Ht. unfold is_tip, degree in Ht. simpl in Ht. simpl uname.
+  unfold parsimony_acr. simpl all_tip_names. rewrite Ht. simpl find.
+  destruct (lookup n m) eqn:E.
+  - unfold parsimony. unfold is_tip, degree. simpl uslots. rewrite Ht. eexists. split; reflexivity.
+  - reflexivity.
+Qed.
